@@ -161,10 +161,8 @@ func (k Keeper) ValidateValidatorFinishUnstaking(ctx sdk.Ctx, validator types.Va
 	if !validator.IsUnstaking() {
 		return types.ErrValidatorStatus(k.codespace)
 	}
-	// sanity check
-	if validator.StakedTokens.LT(sdk.NewInt(k.MinimumStake(ctx))) {
-		return types.ErrValidatorStatus(k.codespace)
-	}
+	// the stake is returned whatever the minimum stake is by now: a minimum raised by
+	// governance after the validator began unstaking must not lock its tokens in the pool
 	return nil
 }
 
